@@ -60,7 +60,7 @@ def must_separate(a, b):
 
 
 class Item:
-    __slots__ = ('text', 'no_nl_before', 'nl_after', 'kind', 'opens', 'closes')
+    __slots__ = ('text', 'no_nl_before', 'nl_after', 'kind', 'opens', 'closes', '_short_closes')
 
     def __init__(self, text, kind='tok'):
         self.text = text
@@ -69,6 +69,7 @@ class Item:
         self.kind = kind
         self.opens = []     # statement kinds that start at this token (outermost first)
         self.closes = 0     # number of statements that end at this token
+        self._short_closes = 0
 
 
 class LuaGen:
